@@ -15,6 +15,7 @@ from unified_planning.model import (DurativeAction, InstantaneousAction, Problem
                                     FixedDuration, ClosedDurationInterval, OpenDurationInterval,
                                     LeftOpenDurationInterval, UPState)
 from unified_planning.model.metrics import MinimizeMakespan, MinimizeActionCosts
+from unified_planning.model.contingent import ContingentProblem
 from unified_planning.model.problem_kind import ProblemKind, all_features, get_valid_features
 from unified_planning.model.problem_kind_versioning import FEATURES_VERSIONS, LATEST_PROBLEM_KIND_VERSION
 
@@ -40,8 +41,8 @@ RULE = ("five case shapes. (probs) one real problem — a bundled example (unifi
 ASSUMPTIONS = [
     "a compiler that raises on a problem inside its supported kind produces no compiled problem: that is C08's subject; "
     "such cases are counted (distribution: compile-error:<class>) and make no demand here",
-    "Ks0Compiler is given the single initial state of the problem as its possible_initial_states when the problem is not a "
-    "ContingentProblem (it cannot be run otherwise)",
+    "Ks0Compiler is given two possible_initial_states when the problem is not a ContingentProblem (it cannot be run "
+    "otherwise): the problem's initial state and the one with its first Boolean fluent flipped",
     "only the compilers shipped in unified_planning/engines/compilers are registered in the factory (no external grounders); "
     "TarskiGrounder cannot be imported here, its declarations are translated and compared but it compiles nothing",
     "problem kinds carry the explicit latest version (Problem.kind always builds them so); kind-level cases also use "
@@ -218,6 +219,12 @@ def temporalize(P, rng):
             Q.add_timed_effect(GlobalStartTiming(rng.choice([3, 4])), rng.choice(num), 1)
         except Exception:
             pass
+    if rng.random() < 0.15 and len(ground_bool) >= 2:
+        try:   # a conditional timed effect
+            f, g = rng.sample(ground_bool, 2)
+            Q.add_timed_effect(GlobalStartTiming(rng.choice([1, 6])), f, rng.choice([True, False]), em.FluentExp(g))
+        except Exception:
+            pass
     if rng.random() < 0.3 and ground_bool:
         iv = rng.choice([TimePointInterval(GlobalStartTiming(6)), ClosedTimeInterval(GlobalStartTiming(1), GlobalStartTiming(4))])
         Q.add_timed_goal(iv, em.FluentExp(rng.choice(ground_bool)))
@@ -231,6 +238,11 @@ def temporalize(P, rng):
             Q.add_quality_metric(m)
     if not Q.quality_metrics and rng.random() < 0.25:
         Q.add_quality_metric(MinimizeMakespan(env))
+    k = rng.random()
+    if k < 0.12:
+        Q.discrete_time = True
+    elif k < 0.24:
+        Q.self_overlapping = True
     return Q
 
 
@@ -244,8 +256,16 @@ def problem_of(src):
 
 
 def make_compiler(C, P):
-    if C.__name__ == "Ks0Compiler" and not isinstance(P, up.model.ContingentProblem):
-        return C(possible_initial_states=[UPState(P.initial_values)])
+    if C.__name__ == "Ks0Compiler" and not isinstance(P, ContingentProblem):
+        # two possible initial states: the problem's own, and the one with its first Boolean fluent flipped
+        em = P.environment.expression_manager
+        s0 = dict(P.initial_values)
+        s1 = dict(s0)
+        for f, v in s0.items():
+            if v.is_bool_constant():
+                s1[f] = em.Bool(not v.bool_constant_value())
+                break
+        return C(possible_initial_states=[UPState(s0, P), UPState(s1, P)])
     return C()
 
 
@@ -425,7 +445,7 @@ def cases(rng, tier):
     for cname in sorted(CLASSES):
         yield ["sk", cname]
     ex_kinds = None
-    for _ in range(140 * n):
+    for _ in range(200 * n):
         # kind-level: transformers on random / realistic kinds
         cname = rng.choice(sorted(CLASSES))
         if rng.random() < 0.4:
@@ -439,10 +459,10 @@ def cases(rng, tier):
             yield ["rk", cname, rand_kind(rng, base=rng.choice(ex_kinds), version=LATEST if rng.random() < 0.8 else None)]
         else:
             yield ["rk", cname, rand_kind(rng)]
-    for _ in range(60 * n):
+    for _ in range(80 * n):
         k = clean(rand_kind(rng, base=["ACTION_BASED"] if rng.random() < 0.8 else None))
         yield ["chain", k, [rng.choice(PIPE_CKS + CKS) for _ in range(rng.choice([1, 2, 2, 3]))]]
-    for i in range(90 * n):
+    for i in range(200 * n):
         src = gen_problem_src(rng, tier)
         yield ["probs", src]
         if i % 2 == 0:
@@ -577,6 +597,93 @@ def oracle(payload):
                 return (f"pipeline {rec['names']}: the problem produced by stage {i} ({row['name']}) has {row['extra']} "
                         f"outside the declared chain")
         return None
+    return None
+
+
+# ------------------------------------------------------------------------------------------------
+# known finding D-C09a: Problem.kind does not report the negation / disjunction hidden in `iff` (nor the negation
+# hidden in `implies`), so a compiler that simplifies or normalises such an expression exposes NEGATIVE_CONDITIONS /
+# DISJUNCTIVE_CONDITIONS that no declaration can anticipate from the kind
+# ------------------------------------------------------------------------------------------------
+def _hidden_operators(P):
+    """(has_iff, has_implies) over every condition-like expression of the problem"""
+    from unified_planning.model.operators import OperatorKind
+    from unified_planning.model.walkers import OperatorsExtractor
+    ox = OperatorsExtractor()
+    exps = []
+    for a in getattr(P, "actions", []):
+        if isinstance(a, InstantaneousAction):
+            exps += list(a.preconditions)
+            effs = list(a.effects)
+        elif isinstance(a, DurativeAction):
+            for cl in a.conditions.values():
+                exps += list(cl)
+            effs = [e for el in a.effects.values() for e in el]
+        else:
+            effs = []
+        for e in effs:
+            exps += [e.condition, e.value]
+    for el in getattr(P, "timed_effects", {}).values():
+        for e in el:
+            exps += [e.condition, e.value]
+    exps += list(getattr(P, "goals", []))
+    for gl in getattr(P, "timed_goals", {}).values():
+        exps += list(gl)
+    exps += list(getattr(P, "trajectory_constraints", []))
+    for m in getattr(P, "quality_metrics", []):
+        if m.is_oversubscription():
+            exps += list(m.goals.keys())
+        elif m.is_temporal_oversubscription():
+            exps += [g for _, g in m.goals.keys()]
+    ops = set()
+    for e in exps:
+        ops |= ox.get(e)
+    return OperatorKind.IFF in ops, OperatorKind.IMPLIES in ops
+
+
+def _explained_by_hidden_operators(P, extras):
+    """are the features `extras` (outside a declared kind) what D-C09a predicts for this problem?"""
+    if not extras:
+        return True
+    has_iff, has_implies = _hidden_operators(P)
+    allowed = set()
+    if has_iff:
+        allowed |= {"NEGATIVE_CONDITIONS", "DISJUNCTIVE_CONDITIONS"}
+    if has_implies:
+        allowed |= {"NEGATIVE_CONDITIONS"}
+    return set(extras) <= allowed
+
+
+def known_cause(payload):
+    t = payload[0]
+    if t == "probs":
+        rec = observe_probs(payload)
+        if rec["error"]:
+            return None
+        P = problem_of(payload[1])
+        bad = False
+        for row in rec["rows"]:
+            if row["kq"] is None or row["declared"] == "assert":
+                continue
+            ex = extra_features(dec_kind(row["kq"]), dec_kind(row["declared"]))
+            if ex:
+                bad = True
+                if not _explained_by_hidden_operators(P, ex):
+                    return None
+        return "D-C09a" if bad else None
+    if t == "pipe":
+        rec = observe_pipe(payload)
+        if rec["error"] or rec["outcome"] != "ok":
+            return None
+        P = problem_of(payload[1])
+        bad = False
+        for row in rec["rows"]:
+            ex = (row.get("missing") or []) if not row["acc"] else (row.get("extra") or [])
+            if ex:
+                bad = True
+                if not _explained_by_hidden_operators(P, ex):
+                    return None
+        return "D-C09a" if bad else None
     return None
 
 
